@@ -119,9 +119,12 @@ def model_token(tok, baseline=None):
     if p[0] == 'c':
         # whether the body returns or raises is an INPUT of the model: read off the untouched-logger baseline
         returns = own_error(tok, baseline or {}) is None
+        # three exits in the model: r (returns), x (raises an Exception), i (left through a BaseException that is not an
+        # Exception: the KeyboardInterrupt / SystemExit of modes i / q) - theorem C20.except_only_restore_leaks_on_interrupt
+        how = 'r' if returns else 'i' if (len(p) > 2 and p[2] in INTERRUPT) else 'x'
         if p[1] in BAD_VERB:
-            return 'cb:%s' % ('r' if returns else 'x')
-        return 'c:%s:%s' % ('N' if p[1] == 'O' else p[1], 'r' if returns else 'x')
+            return 'cb:%s' % how
+        return 'c:%s:%s' % ('N' if p[1] == 'O' else p[1], how)
     return tok
 
 
